@@ -8,7 +8,7 @@ from typing import Dict, List, Optional, Set, Tuple
 from .. import affine as A
 from ..symb import Sym
 from ..common import STEP_FN, STEP_ROOT, RESET_FN, UPDATE_FN, RUN_ROOT, step_roles
-from ..cp import row_writers, output_columns
+from ..cp import row_writers, output_columns, step_local
 from ..effects import stores
 from ..model import norm, walk_no_nested, AnalysisError, FuncInfo
 from ..rdef import flow_of, ENTRY
@@ -405,11 +405,12 @@ def rule_b(chk, prog):
     roles = step_roles(prog)
     step = prog.func(STEP_FN)
     total = 0
-    total += conservation(chk, prog, "pre_irrigation", {"PreIrr": +1}, roles, step)
-    total += conservation(chk, prog, "groundwater_inflow", {"GwIn": +1}, roles, step)
-    total += conservation(chk, prog, "capillary_rise", {"CR": +1}, roles, step, tolerate_round=True)
-    total += conservation(chk, prog, "transpiration", {"Tr": -1, "IrrNet": +1}, roles, step)
-    total += conservation(chk, prog, "soil_evaporation", {"Es": -1}, roles, step)
+    L = lambda k: step_local(prog, k)       # the step's locals by provenance (output column / callee), not by spelling
+    total += conservation(chk, prog, "pre_irrigation", {L("pre_irr"): +1}, roles, step)
+    total += conservation(chk, prog, "groundwater_inflow", {L("col:GwIn"): +1}, roles, step)
+    total += conservation(chk, prog, "capillary_rise", {L("col:CR"): +1}, roles, step, tolerate_round=True)
+    total += conservation(chk, prog, "transpiration", {L("col:Tr"): -1, L("irr_net"): +1}, roles, step)
+    total += conservation(chk, prog, "soil_evaporation", {L("col:Es"): -1}, roles, step)
     chk.floor("C01.b", total, 9, "store / flux pairs verified")
 
 
@@ -434,7 +435,7 @@ def rule_c(chk, prog):
     si = Sym(prog, inf)
     ret = [r for r in walk_no_nested(inf.node) if isinstance(r, ast.Return)][0]
     targets = [a for a in walk_no_nested(step.node) if isinstance(a, ast.Assign) and a.value is call][0].targets[0].elts
-    pos_dp = next(i for i, t in enumerate(targets) if isinstance(t, ast.Name) and t.id == "DeepPerc")
+    pos_dp = next(i for i, t in enumerate(targets) if isinstance(t, ast.Name) and t.id == step_local(prog, "col:DeepPerc"))
     f_dp0 = next((f for f, v in src.items() if v.split("~")[0].endswith("[1]")), None)
     for nn, stt in si.at_return():
         got = si.nf(ret.value.elts[pos_dp], stt)
@@ -447,7 +448,7 @@ def rule_c(chk, prog):
     # every process flux reaches its column (T-COLS does the per-column provenance); PreIrr reaches IrrNet
     wf = row_writers(prog)["water_flux"]
     stw = s.state_in[s.cfg.node_of(wf).id]
-    irrnet = A.text(s.nf(ast.Name(id="IrrNet", ctx=ast.Load()), stw))
+    irrnet = A.text(s.nf(ast.Name(id=step_local(prog, "irr_net"), ctx=ast.Load()), stw))
     if "pre_irrigation@" in irrnet and "transpiration@" in irrnet:
         chk.ok("C01.c", STEP_FN, "IrrNet = transpiration's net requirement + PreIrr", irrnet[:90])
     else:
